@@ -22,7 +22,7 @@ def parse_results(paths):
             continue
         cur = None
         for line in open(p, errors="replace"):
-            m = re.match(r"=== (C\d+) patch(\d)", line)
+            m = re.match(r"=== (C\d+) patch(\d+)\b", line)
             if m:
                 cur = (m.group(1), int(m.group(2)))
                 runs.setdefault(cur, []).append({"verdict": None, "signatures": [], "check": cur[0]})
@@ -56,7 +56,7 @@ def main():
     kept = 0
     for out in sorted(glob.glob("/tmp/mut/C*/out")):
         pid = out.split("/")[3]
-        for n in range(1, 9):
+        for n in range(1, 13):
             patch, demo, meta, conf = (os.path.join(out, f"{k}{n}.{e}") for k, e in (("patch", "diff"), ("demo", "rs"), ("meta", "json"), ("confirm", "json")))
             if not all(os.path.exists(x) for x in (patch, demo, meta, conf)):
                 continue
